@@ -19,7 +19,7 @@ RULE = ("Requests of every outcome class (syntax error by truncation, validation
         "resolver return < end; per resolved field the middlewares are entered last-first exactly once before the "
         "resolver; ApolloTracer.payload() lists each resolved path once with offsets and durations. Non-trivial: a failing "
         "stage, or >= 2 tasks in flight with a non-identity schedule, or >= 2 stacked instrumentations / middlewares; "
-        "distinct = (request, configuration, schedule, stack sizes).")
+        "distinct = (request, configuration, schedule, stack sizes). In half of the cases the middlewares are value objects (equal and equally hashed across requests, each with its own state) and the recording instrumentations are empty sized containers (falsy).")
 ASSUMPTIONS = C8.ASSUMPTIONS + [
     "Middleware exit events are only ordered in the blocking configurations (a plain middleware returns as soon as the deferred resolver is submitted).",
 ]
